@@ -62,10 +62,23 @@ fn parse_default_value(
 fn parse_type(pair: Pair<Rule>, pc: &mut PositionCalculator) -> Result<Positioned<Type>> {
     debug_assert_eq!(pair.as_rule(), Rule::type_);
 
-    Ok(Positioned::new(
-        Type::new(pair.as_str()).unwrap(),
-        pc.step(&pair),
-    ))
+    // The text of the pair may contain ignored tokens (`[ Int ! ]`), so the type is built from
+    // the pairs inside it.
+    fn build(pair: Pair<Rule>) -> Type {
+        let nullable = !pair.as_str().ends_with('!');
+        let inner = exactly_one(pair.into_inner());
+        Type {
+            base: match inner.as_rule() {
+                Rule::name => BaseType::Named(Name::new(inner.as_str())),
+                Rule::type_ => BaseType::List(Box::new(build(inner))),
+                _ => unreachable!(),
+            },
+            nullable,
+        }
+    }
+
+    let pos = pc.step(&pair);
+    Ok(Positioned::new(build(pair), pos))
 }
 
 fn parse_const_value(
